@@ -429,7 +429,7 @@ def splice_cases(draw):
 CHECKS = [
     Check("zero_crossing", run_zero_crossing, strategy=lambda tier: zc_cases(), quick_n=4000, thorough_n=40000),
     Check("search_edit_search", run_search_edit_search, strategy=lambda tier: ses_cases(), quick_n=300, thorough_n=5000),
-    Check("tg_boundaries", run_tg_boundaries, strategy=lambda tier: tgb_cases(), quick_n=600, thorough_n=5000),
+    Check("tg_boundaries", run_tg_boundaries, strategy=lambda tier: tgb_cases(), quick_n=1200, thorough_n=5000),
     Check("splice", run_splice, strategy=lambda tier: splice_cases(), quick_n=1500, thorough_n=15000),
 ]
 KNOWN = {}
